@@ -53,6 +53,10 @@ def _auc_update_input_check(x: torch.Tensor, y: torch.Tensor, n_tasks: int = 1) 
     if y.ndim == 1:
         y = y.unsqueeze(0)
 
+    if x.ndim > 2 or y.ndim > 2:
+        raise ValueError(
+            f"The `x` and `y` should be one or two dimensional tensors, got shapes {size_x} and {size_y}."
+        )
     if x.numel() == 0 or y.numel() == 0:
         raise ValueError(
             f"The `x` and `y` should have atleast 1 element, got shapes {size_x} and {size_y}."
